@@ -40,14 +40,14 @@ def _x():
     """Lazy import of experimaestro and of the zoo"""
     global _xp
     if _xp is None:
-        import logging
         import warnings
-        warnings.filterwarnings("ignore")
+        with warnings.catch_warnings():
+            warnings.simplefilter("ignore")
+            import experimaestro  # noqa: F401
         from experimaestro import Config
         from experimaestro.core.objects import ConfigWalkContext, setmeta
         from experimaestro.scheduler.workspace import RunMode
         from bounded import zoo_ident as zoo
-        logging.getLogger("xpm").setLevel(logging.ERROR)
 
         class Ctx(ConfigWalkContext):
             def __init__(self, p="/zoo/ctx"):
@@ -383,15 +383,18 @@ class _FastInspect:
 
 def build(roots):
     """Build a fresh graph from a list of root descriptions -> (root objects, every configuration built)"""
+    import logging
     import experimaestro.core.objects as xo
-    real = xo.inspect
-    if isinstance(real, _FastInspect) or os.environ.get("VERIF_IDENT_SLOW_INSPECT"):
-        return _build_all(roots)
-    xo.inspect = _FastInspect(real)
+    real, log = xo.inspect, logging.getLogger("xpm")
+    level = log.level
+    log.setLevel(logging.CRITICAL + 1)          # a refused graph is reported by the exception, not on stderr
+    if not isinstance(real, _FastInspect) and not os.environ.get("VERIF_IDENT_SLOW_INSPECT"):
+        xo.inspect = _FastInspect(real)
     try:
         return _build_all(roots)
     finally:
         xo.inspect = real
+        log.setLevel(level)
 
 
 def _build_all(roots):
@@ -970,8 +973,6 @@ def _neutral_edits(g):
     """[(name, edited G)]: edits of one node that the documentation places outside the signature"""
     z = _x().zoo
     out = [("tag", g.but(tags=g.tags + (("k", 1),))), ("two tags", g.but(tags=g.tags + (("k", 2), ("other", "v"))))]
-    if g.submit:
-        pass
     given = set(g.kw) | set(g.late)
     for a in _arguments(g.cls).values():
         if a.generator or a.constant:
